@@ -207,7 +207,7 @@ impl Types {
                 }
             }
             MemberKind::Uint(n) => {
-                let value = permissive::deserialize::<U256, _>(value)?;
+                let value = serialization::num::deserialize(value)?;
                 ensure!(
                     value.leading_zeros() + n >= 256,
                     "value {value:#x} overflows uint{n}",
